@@ -277,8 +277,11 @@ def normalise(tree, relpath):
         done.extend('%s: %s' % (relpath, x) for x in inline.inline_helpers(tree, known_functions))
     proven = as_reference(tree, relpath, done)
     for key, fn in functions(tree):
-        if key not in ref or key == '__functions__' or key in proven:
+        if key == '__functions__' or key in proven or (key not in ref and key not in known_functions):
             continue
+        if key not in ref:
+            ref = dict(ref)
+            ref[key] = {'locals': [], 'cmp': [], 'jif': {}}      # a reference function without locals of its own
         ren = plan(fn, [tuple(x) for x in ref[key].get('locals', [])])
         if ren:
             for n in _own(fn):
@@ -299,6 +302,7 @@ def normalise(tree, relpath):
                             n.left, n.ops, n.comparators = n.comparators[0], [_FLIP[type(n.ops[0])]()], [n.left]
                             done.append('%s:%s `%s` read as `%s`' % (relpath, key, t, ft))
         done.extend('%s:%s %s' % (relpath, key, x) for x in _inline_explaining(fn, known))
+        done.extend('%s:%s %s' % (relpath, key, x) for x in _inline_aliases(fn, known))
         # early-exit `if` vs if/else, as on the reference tree
         want = ref[key].get('jif', {})
         if want:
@@ -549,6 +553,55 @@ def _inline_explaining(fn, known):
     return done
 
 
+def _inline_aliases(fn, known):
+    """`t = <call-free chain of attributes / subscripts>` bound once, to a local the reference tree does not have, with
+    every use in a statement that follows the binding in the same block (or nested in such a statement) and no re-binding
+    of the chain's names in between: the uses are read as the chain.  Unlike the explaining-variable pass this may move the
+    read across a call, so it is a *reading aid for the rules* (they look for `namedType.asn1Object`, not for a name the
+    author chose for it), applied only where the function could not be proven equivalent to its reference form."""
+    done = []
+    for blk in _blocks(fn):
+        i = 0
+        while i < len(blk):
+            s = blk[i]
+            i += 1
+            if not (isinstance(s, ast.Assign) and len(s.targets) == 1 and isinstance(s.targets[0], ast.Name)):
+                continue
+            v = s.targets[0].id
+            if v in known or not _simple(s.value) or isinstance(s.value, (ast.Constant, ast.Name)):
+                continue
+            if not isinstance(s.value, (ast.Attribute, ast.Subscript)):
+                continue
+            stores = [x for x in _own(fn) if isinstance(x, ast.Name) and x.id == v and isinstance(x.ctx, (ast.Store, ast.Del))]
+            loads = [x for x in _own(fn) if isinstance(x, ast.Name) and x.id == v and isinstance(x.ctx, ast.Load)]
+            if len(stores) != 1 or not loads:
+                continue
+            later = blk[i:]
+            inside = [x for st in later for x in ast.walk(st) if isinstance(x, ast.Name) and x.id == v and isinstance(x.ctx, ast.Load)]
+            if len(inside) != len(loads):
+                continue
+            if any(isinstance(st, (ast.FunctionDef, ast.Lambda, ast.ClassDef)) for st2 in later for st in ast.walk(st2)):
+                continue
+            names = set(y.id for y in ast.walk(s.value) if isinstance(y, ast.Name))
+            if any(isinstance(x, ast.Name) and isinstance(x.ctx, (ast.Store, ast.Del)) and x.id in names for st in later for x in ast.walk(st)):
+                continue
+            for x in inside:
+                new = ast.parse(ast.unparse(s.value), mode='eval').body
+                for sub in ast.walk(new):
+                    for a in ('lineno', 'col_offset', 'end_lineno', 'end_col_offset'):
+                        if hasattr(x, a):
+                            setattr(sub, a, getattr(x, a))
+                x.__class__ = new.__class__
+                x.__dict__.clear()
+                x.__dict__.update(new.__dict__)
+            i -= 1
+            del blk[i]
+            if not blk:
+                blk.append(ast.Pass(lineno=s.lineno, col_offset=0))
+            done.append('alias `%s = %s` read as the chain it names' % (v, _text(s.value)[:40]))
+    return done
+
+
 def _text(n):
     return ' '.join(ast.unparse(n).split())
 
@@ -560,7 +613,8 @@ def _simple(e):
     if isinstance(e, ast.Attribute):
         return _simple(e.value)
     if isinstance(e, ast.Subscript):
-        return _simple(e.value) and isinstance(e.slice, (ast.Name, ast.Constant))
+        return _simple(e.value) and (isinstance(e.slice, (ast.Name, ast.Constant)) or
+                                     (isinstance(e.slice, ast.UnaryOp) and isinstance(e.slice.operand, ast.Constant)))
     if isinstance(e, ast.Call):
         return isinstance(e.func, ast.Name) and e.func.id == 'len' and len(e.args) == 1 and not e.keywords and _simple(e.args[0])
     if isinstance(e, ast.BinOp):
